@@ -25,6 +25,7 @@ FAMILIES = {
     "batch": "harness.check_batch",
     "compose": "harness.check_compose",
     "inherit": "harness.check_inherit",
+    "template": "harness.check_template",
 }
 # property -> families whose judges print verdicts for it
 PROPS = {
@@ -46,7 +47,7 @@ PROPS = {
     "C17": ["batch"],
     "C01": ["formats", "compose"], "C02": ["formats", "compose"],
     # beyond the listed properties (not in MANIFEST.json; evidence goes to build/)
-    "X01": ["inherit"],
+    "X01": ["inherit"], "X02": ["template"],
 }
 EXPLAIN = {}
 
